@@ -295,3 +295,45 @@ pub fn resolve_array_conflict() {
     assert!(same_state(&b.m, &a.m), "array resolution did not propagate");
     sym::reach(1);
 }
+
+/// C06 with nested flattened arrays: element x of the outer array owns an inner array. Replica a removes x (with its
+/// inner array and elements), replica b concurrently edits x and inserts a new element into the inner array.
+pub fn nested_arrays() {
+    let base = obj(json!({"outer♭": [{"_id": "x", "name": "n", "kids♭": [{"_id": "k1", "v": "x"}]}, {"_id": "y", "name": "m"}]}));
+    let (mut a, mut b) = base_pair(base);
+    a.m.update(obj(json!({"outer♭": [{"_id": "y", "name": "m"}]}))).expect("update a");
+    a.m.commit(None).expect("commit a");
+    let name = sym::string(LOWER, 1, 1);
+    b.m.update(obj(json!({"outer♭": [{"_id": "y", "name": "m"}, {"_id": "x", "name": name, "kids♭": [{"_id": "k1", "v": "x"}, {"_id": "k2", "v": "x"}]}]}))).expect("update b");
+    b.m.commit(None).expect("commit b");
+    a.pull(&b);
+    b.pull(&a);
+    let d = a.m.read(None).expect("read a");
+    assert!(b.m.read(None).expect("read b") == d, "replicas read different documents after exchange");
+    let outer = d.get("outer♭").and_then(|v| v.as_array()).cloned().unwrap_or_default();
+    let ids: Vec<String> = outer.iter().map(|o| o["_id"].as_str().unwrap().to_string()).collect();
+    assert!(ids.iter().filter(|i| *i == "y").count() == 1, "y does not appear exactly once");
+    let x_alive = a.m.get_value("x", None).map(|v| !v.contains_key("_deleted")).unwrap_or(false);
+    sym::observe_bool(x_alive);
+    if x_alive {
+        // x survives (b's edit won): it appears once and its inner array shows every surviving element once
+        assert!(ids.iter().filter(|i| *i == "x").count() == 1, "surviving element x does not appear exactly once");
+        let x = outer.iter().find(|o| o["_id"] == "x").unwrap();
+        let kids: Vec<String> = x["kids♭"].as_array().cloned().unwrap_or_default().iter().map(|o| o["_id"].as_str().unwrap().to_string()).collect();
+        assert!(kids.iter().filter(|k| *k == "k2").count() == 1, "element inserted concurrently into the inner array is lost");
+        let k1_alive = a.m.get_value("k1", None).map(|v| !v.contains_key("_deleted")).unwrap_or(false);
+        assert!(kids.iter().filter(|k| *k == "k1").count() == if k1_alive { 1 } else { 0 }, "inner element k1 not shown according to its liveness");
+    } else {
+        assert!(!ids.contains(&"x".to_string()), "deleted element x reappears");
+    }
+    // the result survives a commit and its propagation
+    let mut d1 = d.clone();
+    d1.remove("_id");
+    d1.insert("t".to_string(), Value::from(1));
+    a.m.update(d1).expect("update");
+    let r1 = a.m.read(None).unwrap();
+    a.m.commit(None).expect("commit");
+    b.pull(&a);
+    assert!(b.m.read(None).unwrap() == r1, "merged nested arrays change when committed and propagated");
+    sym::reach(1);
+}
